@@ -141,8 +141,21 @@ func c03Prop(k *verifkit.Kit) func(c c03Case) error {
 			k.Record(c, false, "rejected-by-parse")
 			return nil
 		}
-		nt := false
-		var classes []string
+		classes, nt, err := c03CheckCfg(cfg, c.State, text)
+		if err != nil {
+			return err
+		}
+		k.Record(c, nt, classes...)
+		return nil
+	}
+}
+
+// c03CheckCfg puts the RA of every advertising interface of an accepted
+// configuration through the codec (shared by the generated cases and the
+// native fuzz target).
+func c03CheckCfg(cfg *Config, st sysState, text string) (classes []string, nt bool, err error) {
+	{
+		c := struct{ State sysState }{st}
 		for i := range cfg.Interfaces {
 			ifi := &cfg.Interfaces[i]
 			if ifi.Monitor {
@@ -156,25 +169,25 @@ func c03Prop(k *verifkit.Kit) func(c c03Case) error {
 			}
 			want, fractional, verr := c03Truncate(ra)
 			if verr != nil {
-				return verifkit.Violf(verr.(*verifkit.Violation).Sig, "interface %q: %s\nRA %s\n%s", ifi.Name, verr.(*verifkit.Violation).Msg, raString(ra), text)
+				return nil, false, verifkit.Violf(verr.(*verifkit.Violation).Sig, "interface %q: %s\nRA %s\n%s", ifi.Name, verr.(*verifkit.Violation).Msg, raString(ra), text)
 			}
 			b, err := ndp.MarshalMessage(ra)
 			if err != nil {
-				return verifkit.Violf("C03/not-encodable", "interface %q: accepted configuration yields an RA that does not encode: %v\nRA %s\n%s", ifi.Name, err, raString(ra), text)
+				return nil, false, verifkit.Violf("C03/not-encodable", "interface %q: accepted configuration yields an RA that does not encode: %v\nRA %s\n%s", ifi.Name, err, raString(ra), text)
 			}
 			m, err := ndp.ParseMessage(b)
 			if err != nil {
-				return verifkit.Violf("C03/not-decodable", "interface %q: encoded RA does not decode: %v\nRA %s\n%s", ifi.Name, err, raString(ra), text)
+				return nil, false, verifkit.Violf("C03/not-decodable", "interface %q: encoded RA does not decode: %v\nRA %s\n%s", ifi.Name, err, raString(ra), text)
 			}
 			back, ok := m.(*ndp.RouterAdvertisement)
 			if !ok {
-				return verifkit.Violf("C03/not-decodable", "decoded a %T", m)
+				return nil, false, verifkit.Violf("C03/not-decodable", "decoded a %T", m)
 			}
 			if g, w := raString(back), raString(want); g != w {
 				if alt, _, _ := c03TruncateMode(ra, true); alt != nil && raString(alt) == g {
-					return verifkit.Violf("C03/seconds-rounded-up-within-1us-of-next-second", "interface %q: a lifetime less than 1us below a whole second is sent rounded up, not truncated (float64 conversion in the codec):\nbuilt   %s\ndecoded %s\n%s", ifi.Name, raString(ra), g, text)
+					return nil, false, verifkit.Violf("C03/seconds-rounded-up-within-1us-of-next-second", "interface %q: a lifetime less than 1us below a whole second is sent rounded up, not truncated (float64 conversion in the codec):\nbuilt   %s\ndecoded %s\n%s", ifi.Name, raString(ra), g, text)
 				}
-				return verifkit.Violf("C03/meaning-changed-on-wire", "interface %q:\nbuilt   %s\nexpect  %s\ndecoded %s\n%s", ifi.Name, raString(ra), w, g, text)
+				return nil, false, verifkit.Violf("C03/meaning-changed-on-wire", "interface %q:\nbuilt   %s\nexpect  %s\ndecoded %s\n%s", ifi.Name, raString(ra), w, g, text)
 			}
 			if fractional {
 				nt = true
@@ -206,8 +219,7 @@ func c03Prop(k *verifkit.Kit) func(c c03Case) error {
 			}
 			classes = append(classes, "roundtrip-ok")
 		}
-		k.Record(c, nt, classes...)
-		return nil
+		return classes, nt, nil
 	}
 }
 
@@ -346,14 +358,24 @@ func c03Sweep(yield func(c03Case) bool) {
 		func(i *dIface, d dDur) { i.ReachableTime = d },
 		func(i *dIface, d dDur) { i.RetransmitTimer = d },
 		func(i *dIface, d dDur) { i.DefaultLifetime = d },
-		func(i *dIface, d dDur) { i.MaxInterval = d; i.PREF64 = []dPREF64{{}}; i.RDNSS = []dRDNSS{{}}; i.DNSSL = []dDNSSL{{HasKey: true, Domains: []string{"lan"}}} },
+		func(i *dIface, d dDur) {
+			i.MaxInterval = d
+			i.PREF64 = []dPREF64{{}}
+			i.RDNSS = []dRDNSS{{}}
+			i.DNSSL = []dDNSSL{{HasKey: true, Domains: []string{"lan"}}}
+		},
 		func(i *dIface, d dDur) { i.Prefixes = []dPrefix{{Valid: d, Preferred: d}} },
 		func(i *dIface, d dDur) { i.Prefixes = []dPrefix{{Valid: dDur{Kind: "infinite"}, Preferred: d}} },
-		func(i *dIface, d dDur) { dep := true; i.Prefixes = []dPrefix{{Valid: d, Preferred: d, Deprecated: &dep}} },
+		func(i *dIface, d dDur) {
+			dep := true
+			i.Prefixes = []dPrefix{{Valid: d, Preferred: d, Deprecated: &dep}}
+		},
 		func(i *dIface, d dDur) { i.Routes = []dRoute{{Lifetime: d}} },
 		func(i *dIface, d dDur) { dep := true; i.Routes = []dRoute{{Lifetime: d, Deprecated: &dep}} },
 		func(i *dIface, d dDur) { i.RDNSS = []dRDNSS{{Lifetime: d}} },
-		func(i *dIface, d dDur) { i.DNSSL = []dDNSSL{{Lifetime: d, HasKey: true, Domains: []string{"example.com"}}} },
+		func(i *dIface, d dDur) {
+			i.DNSSL = []dDNSSL{{Lifetime: d, HasKey: true, Domains: []string{"example.com"}}}
+		},
 	}
 	for _, set := range setters {
 		for _, v := range c03Hostile {
